@@ -5,7 +5,11 @@ Proof: lean/Props/C19.lean (model lean/PydapModel/Ssf.lean).  Tie: (a) what the 
 denominator) vs `Ssf.meanArr/meanGrid` chains; (c) rows kept by bounds(...) vs `Ssf.bounds`; (d) the id string built by
 the client's function proxy vs `Ssf.parseCall`.  Oracle (no model): ServerSideFunctions(BaseHandler(ds)) vs
 BaseHandler(ds) byte for byte on function-free requests; mean vs exact integer sums / axis lengths computed from the
-source; bounds vs a Python filter; client functions.mean(...) vs the raw request."""
+source; bounds vs a Python filter; client functions.mean(...) vs the raw request.  Round 6: (e) whole answers of
+ServerSideFunctions(BaseHandler(ds)) for calls beside ordinary projection items vs `Ssf.ssfHandle` (`ssf-handle`), oracle: the
+ordinary variables are the bare handler's answer to the request without the calls, the results follow in call order and are numpy
+means; (f) the function tables of several applications of one process vs `Ssf.buildApps` (`ssf-tables`), oracle: stock + own
+keywords by object identity."""
 import itertools
 from fractions import Fraction
 
@@ -971,6 +975,15 @@ def handle_checks(ctx, tier, rng):
 TABLE_NAMES = ["mean", "bounds", "f", "g"]
 
 
+def make_decoy(fid):
+    """a keyword function: answers every call with the one-element variable `decoy` = its own id"""
+    from pydap.model import BaseType
+
+    def fn(dataset, *args, _fid=fid):
+        return BaseType("decoy", np.array([float(_fid)]))
+    return fn
+
+
 def table_checks(ctx, tier, rng):
     BaseHandler, SSF = load()
     import pydap.wsgi.ssf as ssf
@@ -989,11 +1002,7 @@ def table_checks(ctx, tier, rng):
             for nm in rng.sample(TABLE_NAMES, rng.choice([0, 0, 1, 1, 2, 3])):
                 fid = next_id
                 next_id += 1
-
-                def fn(dataset, *args, _fid=fid):
-                    out = DatasetType("decoy")
-                    out["decoy"] = BaseType("decoy", np.array([float(_fid)]))
-                    return out["decoy"]
+                fn = make_decoy(fid)
                 ids[id(fn)] = fid
                 keep.append(fn)
                 kw[nm] = fn
@@ -1063,11 +1072,20 @@ def run(ctx):
                 "1..3 (extents 1..4, six dtypes incl. Byte 0..255, integer-valued), every valid axis, nesting depth 1..3, alone or beside an "
                 "ordinary projection, default axis, through the raw request and through the client's function proxy; (c) "
                 "sequences of 1..5 Int32 columns with X/Y/Z axis attributes (either case), intervals incl. min=max and empty "
-                "results, call in selection / projection position / beside a column projection; distinct by the whole case")
+                "results, call in selection / projection position / beside a column projection; (e) handler_gen datasets and "
+                "valid CEs (15 % with an injected item fault) with 1..3 mean calls (nested, default / invalid axis, unknown names; on "
+                "top-level arrays, structure members, nested members, grids, grid arrays) inserted first / middle / last / alone, "
+                "whole answers for two of dds/dods/ascii; (f) histories of 1..5 ServerSideFunctions constructions with keyword "
+                "tables over {mean,bounds,f,g}; distinct by the whole case")
     ctx.assumptions = ["np.mean on small integers: sums are exact in float64, so mean = sum/n is compared exactly for one "
                        "level and to 1e-9 relative for nested calls (inner means are rounded before the outer sum)",
                        "the time arguments of bounds (T axis, needs the optional `coards` package) are outside the model and the generator",
-                       "transparency is proved for constraints parse_ce accepts (the property's own quantifier)"]
+                       "transparency is proved for constraints parse_ce accepts (the property's own quantifier)",
+                       "(e) the values of the arrays a mean is asked of are multiplied by their element count, so that every (nested) "
+                       "mean is an integer (the model's values are integers); the model's evaluator is the table of results recorded "
+                       "by a spy on eval_function during the very request",
+                       "(e) a constructor result whose name is already in the answer is merged into that variable: outside the model "
+                       "(`answered`) and outside the oracle (tag merge)"]
     ctx.proof_phase()
     explore(ctx, ctx.tier)
     return ctx.finish(search=lambda c: explore(c, "thorough", search=True))
@@ -1081,6 +1099,25 @@ def replay(payload):
         return False
     c = f["case"]
     q = c.get("query", "")
+    if c["kind"] == "beside":
+        spec = c15.spec_from_sexp(c["dataset"])
+        tag, fail = judge_beside(BaseHandler, SSF, spec, c["items"], c["calls"], c["sel"], [tuple(o) for o in c["order"]])
+        print("%s -> %s%s" % (c["query"], tag, "" if not fail else ": %s; observed %s, expected %s" % (fail[0], str(fail[1])[:300], str(fail[2])[:300])))
+        return fail is None
+    if c["kind"] == "tables":
+        import pydap.wsgi.ssf as ssf
+        from pydap.model import BaseType, DatasetType
+        stock_before = ssf.load_functions()
+        kws, apps = [], []
+        for kw_ids in c["kws"]:
+            kw = {k: make_decoy(fid) for k, fid in kw_ids.items()}
+            kws.append(kw)
+            ds = DatasetType("d")
+            ds["a"] = BaseType("a", np.array(c["src"], dtype="i4"))
+            apps.append(SSF(BaseHandler(ds), **kw))
+        ok, obs, exp = judge_tables(ssf, apps, kws, stock_before, ssf.load_functions(), c["src"])
+        print("applications built with %s: %s" % ([sorted(k) for k in c["kws"]], "each has the stock functions plus its own" if ok else "%s; expected %s" % (obs, exp)))
+        return ok
     if c["kind"] == "transparency":
         ds = G.build(c15.spec_from_sexp(c["dataset"]))
         a, b = G.run_request(BaseHandler(ds), c["path"], q), G.run_request(SSF(BaseHandler(ds)), c["path"], q)
